@@ -78,8 +78,11 @@ func (x *Explorer) Replay(choices []int) *Result {
 // Judge applies the oracle to a result.
 func (x *Explorer) Judge(r *Result) string {
 	switch r.Outcome {
-	case Diverged, StepLimit:
+	case Diverged:
 		return "infrastructure: " + r.Outcome + ": " + r.Msg
+	case StepLimit:
+		// every scenario has a finite horizon: running past it means some loop never ends (e.g. endless retries)
+		return "livelock: the scenario did not come to an end within the step horizon"
 	case Failed:
 		return r.Msg
 	}
